@@ -414,9 +414,17 @@ func GenInput(t *rapid.T, p *Profile) *Input {
 			in.Choices = append(in.Choices, c)
 		}
 	}
-	if rapid.Bool().Draw(t, "hasTail") {
+	switch rapid.IntRange(0, 3).Draw(t, "schedStyle") {
+	case 0, 1:
 		in.TailSeed = rapid.Uint64().Draw(t, "tailSeed")
 		in.TailPct = rapid.SampledFrom([]int{5, 20, 50}).Draw(t, "tailPct")
+	case 2:
+		// priority scheduling (PCT) from the first decision on: fixed random task priorities,
+		// a few demotion points
+		in.Choices = nil
+		in.PCTSeed = rapid.Uint64().Draw(t, "pctSeed")
+		in.PCTDepth = rapid.IntRange(1, 4).Draw(t, "pctDepth")
+		in.PCTSpan = rapid.SampledFrom([]int{50, 150, 400}).Draw(t, "pctSpan")
 	}
 	return in
 }
